@@ -74,8 +74,9 @@ def scope_functions(prog):
 def check_arg_immutable(R, prog):
     nfun = nparams = 0
     for fi in scope_functions(prog):
-        if (fi.module.name, fi.qualname) in INPLACE_BY_CONTRACT:
-            R.ok("ARG-IMMUTABLE", "%s modifies its argument by contract: %s" % (fi.qualname, INPLACE_BY_CONTRACT[(fi.module.name, fi.qualname)]),
+        okey = getattr(prog, "moved", {}).get((fi.module.name, fi.qualname), (fi.module.name, fi.qualname))     # (a function moved to another module keeps its contract)
+        if okey in INPLACE_BY_CONTRACT:
+            R.ok("ARG-IMMUTABLE", "%s modifies its argument by contract: %s" % (fi.qualname, INPLACE_BY_CONTRACT[okey]),
                  fi.key, nontrivial=False)
             continue
         params = [p for p in fi.params if p not in ("self", "cls")]
